@@ -174,7 +174,7 @@ class Pipe:
                     "Discarded exception in %r added after %r has ended",
                     event,
                     self,
-                    exception=event.exception,
+                    exc_info=event.exception,
                 )
             else:
                 # Happens, for example, when a proxy receives multiple requests on a single token
